@@ -3,6 +3,7 @@
 // dyadic, so every correct floating point evaluation is exact and the comparison is ==.
 #include "vharness.hpp"
 #include "vlafem.hpp"
+#include <kernel/lafem/sparse_matrix_bwrappedcsr.hpp>
 
 using namespace vl;
 
@@ -104,7 +105,13 @@ bool run_csr_sb(Ctx& k, const SparseMatrixCSR<DT, IT>& a, const std::string& tag
 {
   typedef DenseVectorBlocked<DT, IT, BS> BV;
   auto mk = [](const IVec& v) { return make_bvec<DT, IT, BS>(v); };
-  return run_call<1, SparseMatrixCSR<DT, IT>, BV, BV, BV>(k, a, mk, mk, mk, tag + "/sb" + std::to_string(BS));
+  if(!run_call<1, SparseMatrixCSR<DT, IT>, BV, BV, BV>(k, a, mk, mk, mk, tag + "/sb" + std::to_string(BS))) return false;
+  // the same matrix behind the block-pretending wrapper (used for blocked multigrid transfers): A (x) I_BS
+  typedef SparseMatrixBWrappedCSR<DT, IT, BS> WT;
+  WT w(a.clone(CloneMode::Deep));
+  static_assert(std::is_same<typename WT::VectorTypeL, BV>::value && std::is_same<typename WT::VectorTypeR, BV>::value, "wrapper vector types");
+  if(w.create_vector_l().size() != a.rows() || w.create_vector_r().size() != a.columns()) return k.fail(tag + ": bwrapped create_vector sizes");
+  return run_call<1, WT, BV, BV, BV>(k, w, mk, mk, mk, tag + "/bwrapped" + std::to_string(BS));
 }
 
 // compare matrix contents against the spec's Abs(rep)
